@@ -370,6 +370,39 @@ func covExtraWorlds(seed int64, idBase int, sessions bool) ([]*World, []string) 
 }
 
 // ---------------------------------------------------------------------------
+// batches for servers built with the library's defaults
+
+func covBatches(seed int64, idBase int) []*Batch {
+	var bs []*Batch
+	id := idBase
+	far := int(ucan.Now()) + 1000000
+	for depth := 1; depth <= 2; depth++ {
+		for _, v := range []string{"inline", "by-link", "inline+dangling", "by-link+inline-duplicate"} {
+			for _, kind := range []string{"ok", "fail"} {
+				cast := newCast(seed*8191 + int64(id))
+				service := cast.Ed("service")
+				with := cast.Ed("p0").DID.String()
+				specs := linearChain(cast, service, "store/add", with, depth, far, Cav{})
+				inv := specs[len(specs)-1]
+				switch v {
+				case "by-link":
+					inv.Proofs[0].Inline = false
+				case "inline+dangling":
+					inv.Dangling = 1
+				case "by-link+inline-duplicate":
+					inv.Proofs = append([]ProofRef{{Tok: inv.Proofs[0].Tok, Inline: false}}, inv.Proofs...)
+				}
+				w := &World{ID: id, Kind: "batch-defaults", Cast: cast, Can: "store/add", Inv: "inv", Specs: specs, Ctx: baseCtx(service)}
+				bs = append(bs, &Batch{ID: id, W: w, Invs: []string{"inv"}, Handlers: map[string]string{"store/add": kind}, DefaultOpts: true,
+					Label: fmt.Sprintf("server with default options, depth=%d proof=%s handler=%s", depth, v, kind)})
+				id++
+			}
+		}
+	}
+	return bs
+}
+
+// ---------------------------------------------------------------------------
 // client connection
 
 // covConnAccessors: a connection reports the principal, channel, codec and hasher it was built with (SHA-256 by default)
@@ -405,6 +438,10 @@ func covConnAccessors(conn client.Connection, id did.DID, ch transport.Channel) 
 type failingNb struct{}
 
 func (failingNb) ToIPLD() (datamodel.Node, error) { return nil, fmt.Errorf("caveats cannot be built") }
+
+type nilNb struct{}
+
+func (nilNb) ToIPLD() (datamodel.Node, error) { return nil, nil }
 
 type failingFact struct{}
 
@@ -552,6 +589,19 @@ func covC07(seed int64) (direct []map[string]any, runs int) {
 		runs++
 		if v, err := ucan.Issue(iss.Signer, aud.DID, []ucan.Capability[ucan.CaveatBuilder]{ucan.NewCapability[ucan.CaveatBuilder]("store/add", iss.DID.String(), failingNb{})}); err == nil || v != nil {
 			bad("failing caveat builder, issuer "+iss.Name, "Issue returned a token although the caveats could not be built")
+		}
+		// a builder that answers with no node at all: if a token comes out, it verifies
+		if p := recovered(func() {
+			v, err := ucan.Issue(iss.Signer, aud.DID, []ucan.Capability[ucan.CaveatBuilder]{ucan.NewCapability[ucan.CaveatBuilder]("store/add", iss.DID.String(), nilNb{})}, ucan.WithExpiration(farFuture))
+			if err == nil {
+				if okv, verr := ucan.VerifySignature(v, iss.Real); verr != nil || !okv {
+					bad("caveat builder answering nil, issuer "+iss.Name, "freshly issued token does not verify against its issuer")
+				}
+			}
+		}); p != nil {
+			// observed on the pinned tree: Issue panics inside bindnode (checkSignableNode lets a nil node through). The builder
+			// broke its contract and no token exists, so no property is violated; recorded in notes/NOTES_COV.md only.
+			_ = p
 		}
 		if v, err := ucan.Issue(iss.Signer, aud.DID, caps, ucan.WithFacts([]ucan.FactBuilder{failingFact{}})); err == nil || v != nil {
 			bad("failing fact builder, issuer "+iss.Name, "Issue returned a token although a fact could not be built")
